@@ -1,6 +1,6 @@
 """C03 - scans are exact, ordered and gapless: ONLY the clause 'never an event of another stream / key' is decided (R3.1-R3.3)."""
 from ..facts import Program, Inconclusive, op_place
-from ..flow import Ev, walk, show, strip
+from ..flow import Ev, walk, show, strip, resolve_upvars
 from ..gate import comparisons, switch_on, edge_dominates, Classifier
 from ..util import ok_return_blocks
 from . import c04
@@ -131,4 +131,70 @@ def run(chk, facts_dir, tier):
                     chk.fail("R3.3", path, "unverified-slot", "a record found through the MPHF is returned without comparing the %s stored in the slot with the one asked for: a key that "
                              "is not in this segment aliases to another key's record (events of another stream / partition / id are returned)" % what, b, s["line"])
     chk.floor("R3.3", n, 3)
+
+    # ---------------- R3.4 the resume cursor of a scan is read from the right end of the batch
+    chk.rule("R3.4", "CURSOR ACCESSORS: CommittedEvents::{first,last}_{partition_sequence,stream_version} read the element their name says (slice `first` for first_*, `last` "
+                     "for last_*) and the field their name says: BucketIter resumes a scan at last_* + 1 and picks the next segment by it, so a `last_*` that answers the "
+                     "first event of a transaction makes every later segment look already passed and the scan ends early")
+    CE = "sierradb::bucket::segment::reader::CommittedEvents::"
+    n4 = 0
+    for end in ("first", "last"):
+        for fld in ("partition_sequence", "stream_version"):
+            path = CE + "%s_%s" % (end, fld)
+            fam4 = prog.family(path) if path in prog.bodies else []
+            if not fam4:
+                raise Inconclusive("%s not found" % path)
+            chk.analysed(path)
+            names = set()
+            fields = set()
+            for b in fam4:
+                for _, t in b.calls():
+                    names.add((b.callee_decl(t) or "").rsplit("::", 1)[-1])
+                ev4 = Ev(prog, b)
+                for r in b.return_blocks():
+                    for x in walk(ev4.place({"l": 0, "p": []}, (r, "T"))):
+                        if isinstance(x, tuple) and x and x[0] == "field" and x[2] in ("partition_sequence", "stream_version"):
+                            fields.add(x[2])
+            picks_first = bool(names & {"first", "first_mut"}) or ("next" in names and not names & {"rev", "next_back"})
+            picks_last = bool(names & {"last", "last_mut", "next_back"}) or ("rev" in names and "next" in names)
+            n4 += 1
+            if picks_first == picks_last:
+                raise Inconclusive("%s: cannot tell which end of the transaction it reads (callees %s)" % (path, sorted(names)))
+            got = "first" if picks_first else "last"
+            if got != end:
+                chk.fail("R3.4", path, "cursor-wrong-end", "%s_%s reads the %s event of a transaction: the scan cursor derived from it points %s the batch just returned" % (
+                    end, fld, got, "into" if end == "last" else "past the start of"), prog.bodies[path])
+            elif fields and fields != {fld}:
+                chk.fail("R3.4", path, "cursor-wrong-field", "%s_%s returns the field %s" % (end, fld, sorted(fields)), prog.bodies[path])
+            else:
+                chk.ok("R3.4", "%s_%s reads `%s()` . %s" % (end, fld, got, fld), prog.bodies[path].where())
+    chk.floor("R3.4", n4, 4)
+
+    # ---------------- R3.5 the cursor is derived from what the scan returned
+    chk.rule("R3.5", "CURSOR FROM THE RETURNED BATCH: every commit BucketIter::next_batch hands to IterConfig::extract_last_position (the value `last_position`, by which the "
+                     "next segment is chosen and positioned, is computed from) either passed IterConfig::filter_commit or is the back of the buffered, already filtered batch. "
+                     "The last event of an unfiltered multi-stream transaction belongs to another stream: its version is not a position of the scanned stream (found D24)")
+    nb = prog.body("sierradb::bucket::iter::BucketIter::<C>::next_batch::{closure#0}")
+    chk.analysed(nb.path)
+    nev = Ev(prog, nb)
+    cls5 = Classifier(prog, lambda t: False, lambda t: False)
+    n5 = 0
+    for b5 in [nb] + [c for c in prog.children(nb.path)]:
+        ev5 = nev if b5 is nb else Ev(prog, b5)
+        for bi, t in b5.calls():
+            if not (b5.callee_decl(t) or "").endswith("::extract_last_position") or len(t["args"]) < 2:
+                continue
+            n5 += 1
+            term = resolve_upvars(prog, ev5.operand(t["args"][1], (bi, "T")), b5)
+            filt = cls5.deep(term, lambda x: isinstance(x, tuple) and x and x[0] == "call" and "filter_commit" in x[1])
+            buffered = any(isinstance(x, tuple) and x and ((x[0] == "field" and x[2] == "batch") or (x[0] == "upvar" and x[1].split(".")[-1] == "batch")) for x in walk(term))
+            if filt:
+                chk.ok("R3.5", "cursor taken from the filtered batch", b5.where(t["line"]))
+            elif buffered:
+                chk.ok("R3.5", "cursor taken from the buffered (already filtered) batch", b5.where(t["line"]))
+            else:
+                chk.fail("R3.5", "sierradb::bucket::iter::BucketIter::<C>::next_batch", "cursor-from-unfiltered", "the resume position is computed from a commit that did not pass "
+                         "filter_commit (%s): when a stream scan's batch ends with a multi-stream transaction whose last event belongs to another stream, the scan continues in the "
+                         "next segment at that other stream's version and skips or repeats events" % show(term)[:90], b5, t["line"])
+    chk.floor("R3.5", n5, 2)
     return {}
